@@ -16,10 +16,25 @@ fn entries<T: Tier>(rh: bool, eye: [T; 3], dir: [T; 3], up: [T; 3]) -> Vec<(&'st
         ([[a[0][0], a[0][1], a[0][2]], [a[1][0], a[1][1], a[1][2]], [a[2][0], a[2][1], a[2][2]]], Some([a[3][0], a[3][1], a[3][2]]))
     };
     let mut out: Vec<(&'static str, [[T; 3]; 3], Option<[T; 3]>)> = Vec::new();
+    let mut deprecated_lh: Vec<(&'static str, [[T; 3]; 3], Option<[T; 3]>)> = Vec::new();
     let mut push4 = |name: &'static str, m: Matrix4<T>| {
         let (r, t) = lin4(m);
         out.push((name, r, t));
     };
+    #[allow(deprecated)]
+    if rh {
+        // the deprecated spellings are documented as the right-handed constructors
+        push4("Matrix4::look_at_dir (deprecated)", Matrix4::look_at_dir(e, d, u));
+        push4("Matrix4::look_at (deprecated)", Matrix4::look_at(e, c, u));
+        push4("Transform<Matrix4>::look_at (deprecated)", <Matrix4<T> as Transform<Point3<T>>>::look_at(e, c, u));
+    } else {
+        // ... and Matrix3's / Decomposed's as the left-handed ones
+        let m = Matrix3::look_at(d, u);
+        let dq: Decomposed<Vector3<T>, Quaternion<T>> = Transform::look_at(e, c, u);
+        let dqm = m3(Matrix3::from(dq.rot));
+        let tm = m3(<Matrix3<T> as Transform<Point3<T>>>::look_at(e, c, u));
+        deprecated_lh = vec![("Matrix3::look_at (deprecated)", m3(m), None), ("Transform<Matrix3>::look_at (deprecated)", tm, None), ("Decomposed<Quaternion>::look_at (deprecated)", dqm, Some(v3(dq.disp)))];
+    }
     if rh {
         push4("Matrix4::look_to_rh", Matrix4::look_to_rh(e, d, u));
         push4("Matrix4::look_at_rh", Matrix4::look_at_rh(e, c, u));
@@ -48,6 +63,7 @@ fn entries<T: Tier>(rh: bool, eye: [T; 3], dir: [T; 3], up: [T; 3]) -> Vec<(&'st
         let db: Decomposed<Vector3<T>, Basis3<T>> = Transform::look_at_lh(e, c, u);
         out.push(("Decomposed<Basis3>::look_at_lh", basis3_arr(db.rot), Some(v3(db.disp))));
     }
+    out.extend(deprecated_lh);
     out
 }
 
@@ -236,7 +252,7 @@ fn planar<T: Tier>(rep: &mut Report) {
 fn main() {
     let mut rep = Report::from_args(P);
     rep.assume("exact frames: dir = lambda*R e_z, up = alpha*R e_y + beta*R e_z for rational rotation matrices R (every non-parallel (dir, up) pair has this form for some frame; the restriction is rational length, not geometry); the clauses determine the rotation uniquely, which is also compared");
-    rep.assume("the deprecated look_at / look_at_dir and the 2-D Transform::look_at_* of Matrix3 are not mentioned by the statement and not judged; look_at_stable is judged only for what the statement fixes");
+    rep.assume("the deprecated look_at / look_at_dir spellings are judged as the constructors they are documented to be (rh for Matrix4, lh for Matrix3 and Decomposed); the 2-D Transform::look_at_* of Matrix3 are not mentioned by the statement and not judged; look_at_stable is judged only for what the statement fixes");
     set_lattice(None);
     frames::<Ex>(&mut rep);
     frames::<f64>(&mut rep);
